@@ -23,11 +23,16 @@ pub(crate) fn query(kind: u8, target: Id) -> IterativeQuery {
 }
 
 pub(crate) fn set_inflight(q: &mut IterativeQuery, tids: &[u32]) {
+    // a fresh Vec assigned as a whole: after the byte-wise move of the query into a map slot the
+    // old Vec's length is no longer a constant for CBMC's symbolic execution, and every
+    // `contains` over it would be unrolled to the unwinding bound
+    let mut v = Vec::with_capacity(4);
     let mut i = 0usize;
     while i < tids.len() {
-        q.inflight_requests.push(tids[i]);
+        v.push(tids[i]);
         i += 1;
     }
+    q.inflight_requests = v;
 }
 
 pub(crate) fn set_votes(q: &mut IterativeQuery, a: Option<(SocketAddrV4, u32)>, b: Option<(SocketAddrV4, u32)>) {
